@@ -331,20 +331,17 @@ func (c *Ctx) configEnforce(rule, enforceName string, fields []string) {
 // enforceAssignments walks the enforce function for each network name and
 // checks which constants get stored.
 func (c *Ctx) enforceAssignments(rule string, enf *ssa.Function, fields []string) {
+	// the raw configured name is the symbol; strings.ToLower and small predicate helpers are evaluated
 	syms := &Symbols{Str: func(v ssa.Value) (string, bool) {
-		if call, ok := v.(*ssa.Call); ok {
-			if f := call.Call.StaticCallee(); f != nil && f.String() == "strings.ToLower" {
-				if ssau.IsFieldOf(call.Call.Args[0], "Configuration", "ActiveNet") {
-					return "net", true
-				}
-			}
+		if ssau.IsFieldOf(ssau.Unwrap(v), "Configuration", "ActiveNet") {
+			return "net", true
 		}
 		return "", false
 	}}
 	mainFreeze, _ := c.constVal("common/config", "MainNetCrossChainUTXOFreezeHeight")
 	mainRestr, _ := c.constVal("common/config", "MainNetCrossChainUTXORestrictionHeight")
 	disabled, _ := c.constVal("common/config", "DisabledCrossChainUTXORestrictionHeight")
-	for _, net := range []string{"", "mainnet", "main", "testnet", "test", "regnet", "regtest", "reg", "somethingelse"} {
+	for _, net := range []string{"", "mainnet", "main", "MainNet", "MAINNET", "Main", "testnet", "test", "TestNet", "regnet", "regtest", "reg", "somethingelse"} {
 		env := Env{S: map[string]string{"net": net}}
 		res := ssau.AbsWalk(enf, ssau.AbsEnvFunc(func(i *ssa.If, visit int) (bool, bool) {
 			return syms.evalCond(i.Cond, env, visit, i.Block().Comment)
@@ -355,7 +352,7 @@ func (c *Ctx) enforceAssignments(rule string, enf *ssa.Function, fields []string
 			if res.Unknown != nil {
 				pos = c.posOf(res.Unknown)
 			}
-			c.R.Undecided(rule, key, pos, "cannot evaluate the network switch: condition not of the form strings.ToLower(cfg.ActiveNet) == \"literal\"")
+			c.R.Undecided(rule, key, pos, "cannot evaluate the network switch: a condition is not a comparison of (strings.ToLower of) cfg.ActiveNet with a literal, directly or in a small helper")
 			continue
 		}
 		stored := map[string]ssa.Value{}
@@ -370,7 +367,8 @@ func (c *Ctx) enforceAssignments(rule string, enf *ssa.Function, fields []string
 				}
 			}
 		}
-		isMain := net == "" || net == "mainnet" || net == "main"
+		lnet := strings.ToLower(net)
+		isMain := lnet == "" || lnet == "mainnet" || lnet == "main"
 		for _, f := range fields {
 			v := stored[f]
 			ok := false
